@@ -94,6 +94,11 @@ MetaWritten(o) ==
 AppliedReproducible(o) ==
     o.rec.last_applied <= (IF o.rec.last_log_index > o.rec.snapshot_index THEN o.rec.last_log_index ELSE o.rec.snapshot_index)
 
+\* the last log index reported to Raft is the index of the last entry that can be read (or the snapshot's when the log is empty)
+LastIndexReadable(o) ==
+    IF Len(o.rec.entries) = 0 THEN o.rec.last_log_index <= o.rec.snapshot_index
+    ELSE o.rec.last_log_index = o.rec.entries[Len(o.rec.entries)].index
+
 Obs4 == ndJsonDeserialize(IOEnv.OBS)
 
 Chk04 == (Mode = "chk") =>
@@ -105,7 +110,8 @@ Chk04 == (Mode = "chk") =>
             /\ KeepsAcked(o) \/ PrintT(<<"REQ-FAILED", "KeepsAcked", i>>)
             /\ OnlySubmitted(o) \/ PrintT(<<"REQ-FAILED", "OnlySubmitted", i>>)
             /\ MetaWritten(o) \/ PrintT(<<"REQ-FAILED", "MetaWritten", i>>)
-            /\ AppliedReproducible(o) \/ PrintT(<<"REQ-FAILED", "AppliedReproducible", i>>))
+            /\ AppliedReproducible(o) \/ PrintT(<<"REQ-FAILED", "AppliedReproducible", i>>)
+            /\ LastIndexReadable(o) \/ PrintT(<<"REQ-FAILED", "LastIndexReadable", i>>))
 
 CExport == Done => PrintT(<<"REPLAY", ToJson([steps |-> hist])>>)
 =============================================================================
